@@ -165,7 +165,7 @@ func c06Static(r *Run) {
 		}
 		r.Count(fmt.Sprintf("location %s : %s", l.Path, l.Type), written[l.ID] || l.Sync, "static/location/"+kind)
 		r.Case(fmt.Sprintf("location %s (%s, %d access nodes): %s", l.Path, l.Type, accessed[l.ID], kind),
-			fmt.Sprintf("Bool.eqb (loc_ok conn_table %d) %s && Bool.eqb (loc_sync conn_table %d) %s", l.ID, coqBool(ok), l.ID, coqBool(l.Sync)))
+			fmt.Sprintf("Bool.eqb (loc_sync conn_table %d || loc_ok conn_table %d) %s && Bool.eqb (loc_sync conn_table %d) %s", l.ID, l.ID, coqBool(ok), l.ID, coqBool(l.Sync)))
 	}
 	// ---- random schedules over the table, run by the model; at every state no two threads are at conflicting accesses of a resolved location
 	var ids []int
